@@ -193,7 +193,69 @@ def resolve_decode(ws, rs, nsw, nsr, buf, pos=0):
         if rf["name"] in got:
             out[rf["name"]] = got[rf["name"]]
         elif "default" in rf:
-            out[rf["name"]] = rf["default"]
+            out[rf["name"]] = default_value(rf["type"], rf["default"], nsr)
         else:
             raise ResolutionError(f"no default for {rf['name']}")
     return out, pos
+
+
+def default_value(s, j, ns, depth=0):
+    """the value a JSON default `j` of a field of (parsed) type `s` denotes (Avro spec, table "field default
+    values"): bytes/fixed defaults are JSON strings whose code points 0-255 are the bytes; float/double
+    accept the JSON spellings of the non-finite values; record defaults are objects whose missing entries take
+    the nested fields' own defaults; arrays and maps element-wise; a union default belongs to the first branch
+    it fits."""
+    if depth > 12:
+        return j
+    s = deref(s, ns) if not isinstance(s, list) else s
+    if isinstance(s, list):
+        for b in s:
+            try:
+                if _json_fits(j, deref(b, ns)):
+                    return default_value(b, j, ns, depth + 1)
+            except ResolutionError:
+                continue
+        return j
+    t = _t(s)
+    if t in ("bytes", "fixed") and isinstance(j, str):
+        try:
+            return j.encode("latin-1")
+        except UnicodeEncodeError:
+            return j
+    if t in ("float", "double"):
+        if isinstance(j, str):
+            return {"NaN": float("nan"), "nan": float("nan"), "Infinity": float("inf"), "inf": float("inf"),
+                    "-Infinity": float("-inf"), "-inf": float("-inf")}.get(j, j)
+        return j
+    if t == "array" and isinstance(j, list):
+        return [default_value(s["items"], x, ns, depth + 1) for x in j]
+    if t == "map" and isinstance(j, dict):
+        return {k: default_value(s["values"], v, ns, depth + 1) for k, v in j.items()}
+    if t in ("record", "error") and isinstance(j, dict):
+        out = {}
+        for f in s["fields"]:
+            if f["name"] in j:
+                out[f["name"]] = default_value(f["type"], j[f["name"]], ns, depth + 1)
+            elif "default" in f:
+                out[f["name"]] = default_value(f["type"], f["default"], ns, depth + 1)
+        return out
+    return j
+
+
+def _json_fits(j, s):
+    t = _t(s)
+    if t == "null":
+        return j is None
+    if t == "boolean":
+        return isinstance(j, bool)
+    if t in ("int", "long"):
+        return isinstance(j, int) and not isinstance(j, bool)
+    if t in ("float", "double"):
+        return (isinstance(j, (int, float)) and not isinstance(j, bool)) or isinstance(j, str)
+    if t in ("bytes", "string", "fixed", "enum"):
+        return isinstance(j, str)
+    if t == "array":
+        return isinstance(j, list)
+    if t in ("map", "record", "error"):
+        return isinstance(j, dict)
+    return False
